@@ -7,6 +7,7 @@ import Mashu.Tz
 import Mashu.ToDict
 import Mashu.Args
 import Mashu.Resolve
+import Mashu.Quote
 import Mashu.Generated
 open Lean
 
@@ -135,6 +136,26 @@ def dispatchResolve (j : Json) : Except String Json := do
   pure (Json.mkObj [("ser", ofM (Resolve.resolveImpl ko so .ser L)), ("de", ofM (Resolve.resolveImpl ku so .de L)),
                     ("spec_ser", ofM (Resolve.resolveSpec .ser L)), ("spec_de", ofM (Resolve.resolveSpec .de L))])
 
+def natList (j : Json) : Except String (List Nat) := do
+  (← arr j).toList.mapM (fun x => match x with
+    | .num n => if n.exponent == 0 && n.mantissa ≥ 0 then pure n.mantissa.toNat else throw "bad code point"
+    | _ => throw "bad code point")
+
+/-- C16: repr and the literal lexer on code points -/
+def dispatchQuote (op : String) (j : Json) : Except String Json := do
+  let s ← natList (j.getObjValD "s")
+  match op with
+  | "pyrepr" => do
+      let printable ← natList (j.getObjValD "printable")
+      let r := Quote.pyRepr (fun c => printable.contains c) s
+      pure (Json.mkObj [("repr", Json.arr (r.map (fun n => Json.num (JsonNumber.fromNat n))).toArray)])
+  | _ => do
+      match Quote.lexLit s with
+      | some (v, rest) =>
+          pure (Json.mkObj [("value", Json.arr (v.map (fun n => Json.num (JsonNumber.fromNat n))).toArray),
+                            ("rest", Json.arr (rest.map (fun n => Json.num (JsonNumber.fromNat n))).toArray)])
+      | none => pure (Json.mkObj [("value", Json.null)])
+
 def dispatch (j : Json) : Except String Json := do
   let op ← str (j.getObjValD "op")
   match op with
@@ -147,6 +168,7 @@ def dispatch (j : Json) : Except String Json := do
   | "todict" => dispatchToDict j
   | "args" => dispatchArgs j
   | "resolve" => dispatchResolve j
+  | "pyrepr" | "pylex" => dispatchQuote op j
   | _ => throw s!"unknown op {op}"
 
 end Mashu
